@@ -112,7 +112,7 @@ def run_cases(ck, res, n_cases, n_interval, exhaustive=False):
 def main():
     ck = Check('C10')
     ck.rule = ('modes = every subset of {t_0,u_0,u_0_prime} resp. {t_0,u_0,t_1,u_1} x every injective index assignment among 4 extra '
-               'columns x constructor u_0_prime given/None (94 + 209 lookup tables; quick: a seeded sample, thorough: all); per mode: '
+               'columns x constructor u_0_prime given/None (110 + 251 lookup tables, incl. non-injective ones where two names share a column; quick: a seeded sample, thorough: all); per mode: '
                'per-row parameter columns, 4 rows incl. t = t_0(row) and t = t_1(row), probe network of 5 inputs; distinct = distinct lookup table')
     ck.step_hygiene()
     res = ck.step_generate('Gen_C10', TARGETS)
@@ -123,7 +123,7 @@ def main():
     if res is not None:
         ck.step_interval_goals('corr', goals)
     if ck.broken and not ck.failures and not ck.thorough():
-        ck.notes.append('search: re-ran the implementation oracle on all 303 lookup tables after a broken obligation')
+        ck.notes.append('search: re-ran the implementation oracle on all 361 lookup tables after a broken obligation')
         run_cases(ck, None, 0, 0, exhaustive=True)
     ck.finish(
         trusted_extra=['Interval (interval tactic)', 'modelled not verified: IEEE-754 rounding, torch.autograd (= symbolic D), broadcasting of per-row parameter columns'],
